@@ -32,10 +32,10 @@ P = {
          "Decides the anchored mechanisms (gate, buffers, error type) and that drawing, masking, placement, interleaving and format writing cannot panic for any of the configurations; value-range proofs of the remaining compiler-inserted asserts are declined."),
  "C11": ("other", "DESIGN.md 3/C11 + 7.2", PE + " of place_on_matrix with summarised stages and an oracle for the penalties (selection semantics) + " + PE + " of the four penalty terms on complete small domains (every line of up to 11 data modules and every mixed-label line up to 6, every 2x2 symbol and 3x3 families, every dark percentage 0..99, totals on 60 8x8 symbol pairs) against a model written from the property + data-dependence slices, edge dominance, reaching definitions across the loop back edge (candidate freshness) + scorer constants",
          "Reports the known finding D1 (column penalties computed on an unmasked copy). Selection exact; penalty terms exact on the stated small domains, longer lines and larger symbols follow from the uniform loop bodies (not separately proved)."),
- "C12": ("other", "DESIGN.md 3/C12", "forward taint with decision-table-recognised sanitiser + format-template decoding + " + PE + " of SvgBuilder::to_str with symbolic module values (one sub-path slot per module, taken iff dark, anchored in the cell, per layer) + dominance/must-pass-through rules",
-         "Exact for every matrix content on 40 (version, margin, layer program) configurations (160 thorough); RGBA colours and the image string; free-form colour strings are outside the property; XML parsers are not run."),
- "C13": ("other", "DESIGN.md 3/C13", "sibling-agreement rule over 11 forwarding methods + decision-table folding of the FitTo match + origin analysis + the SVG skeleton rules of C12",
-         "Option plumbing and the rasterised document's skeleton only: pixel values come from resvg/tiny-skia whose bodies are not local MIR."),
+ "C12": ("other", "DESIGN.md 3/C12 + 7.2", "forward taint with decision-table-recognised sanitiser + format-template decoding + " + PE + " of SvgBuilder::to_str with symbolic module values (one sub-path slot per module, taken iff dark, anchored in the cell, per layer) + " + PE + " of every colour conversion over every value of every channel + dominance/must-pass-through rules",
+         "Exact for every matrix content on 40 (version, margin, layer program) configurations (160 thorough); RGBA colours for every channel value and the image string; free-form colour strings are outside the property; XML parsers are not run."),
+ "C13": ("other", "DESIGN.md 3/C13", "sibling-agreement rule over 11 forwarding methods + " + PE + " of the fit setters and of the FitTo decision (11 setter programs) + origin analysis + the SVG document and colour rules of C12 evaluated on the image configuration",
+         "Option plumbing, the fit request, the rasterised document and its colours only: pixel values come from resvg/tiny-skia whose bodies are not local MIR."),
  "C14": ("proof", "DESIGN.md 3/C14 + 7.2", "crate-wide fact enumeration (statics, unsafe, type graph through local and dependency type definitions, signatures, call-graph deny-list) + setter algebra by " + PE + " (last value wins, pairwise commutation, build hands on the final values) + Send/Sync and borrow witnesses",
          "Proof modulo: std deterministic, resvg without global state; zero-count rules are exercised on a positive fixture every run; the setter identities are evaluated with two distinct values per parameter (the setter bodies do not branch on the values, else the evaluation abstains)."),
  "C15": ("other", "DESIGN.md 3/C15 + 7", "exhaustive folding of the label encoding + " + PE + " of blank symbol, format writer and placement against the ISO region map + guarded-write rule + callback-argument rule + witnesses",
@@ -46,8 +46,8 @@ P = {
          "wasm-bindgen glue and the wasm32 target are not compiled here; option values are a stated list of well-formed, malformed and partial programs, not all strings; the all-input clauses (no trap call, guarded indexing, field lengths) are shape rules."),
  "C18": ("other", "DESIGN.md 3/C18 + 7", PE + " of SvgBuilder::image: frame and image rectangles as numbers for 40 versions x 3 shapes x margins 0..16 (exhaustive for defaults) and a lattice of size/gap/position overrides + folding of image_placement + x/y symmetry",
          "Default placement exact on the property's own finite domain; real-valued overrides are decided on a stated lattice only."),
- "C19": ("other", "DESIGN.md 3/C19", "error-discipline rule (consumer classification of every io::Result) + dominance of Ok + provenance of written bytes + buffered-writer flush rule + witness",
-         "No fault is injected; the guarantee is that no path drops an I/O error, reports Ok early, or leaves bytes in an unflushed buffer."),
+ "C19": ("other", "DESIGN.md 3/C19 + 7.2", PE + " of both to_file writers with std::fs/std::io modelled under every single-fault schedule (no fault: Ok, one truncating file holding the complete output once, nothing buffered; fault at step k: Err) + error-discipline rule (consumer classification of every io::Result) + dominance of Ok + provenance of written bytes + buffered-writer flush rule + witness",
+         "No fault is injected into a running program; the fault schedules are evaluated over the MIR with the I/O API modelled (create/open, write as a partial write, write_all, write_fmt, BufWriter, flush, into_inner, sync, fs::write, save_png, encode_png). Faults inside tiny-skia's save_png are one step of the model."),
 }
 
 def main():
